@@ -194,6 +194,43 @@ def vcode(v):
     return b"\xfe"
 
 
+# script-level round trips: the values are built by the interpreter itself (array literals with keys,
+# $a[] appends, sparse int keys, class instances, json_decode into a class, the depth argument);
+# expected outputs were derived from PHP's semantics (an int-looking string key is the same key)
+SCRIPTS = [
+    ("keyed-literal",
+     "<?php\n$a = [5 => 1, 'k' => 2];\n$s = serialize($a);\necho $s, '|', (serialize(unserialize($s)) === $s ? 'same' : 'diff'), '|', "
+     "json_encode($a), '|', json_encode(json_decode(json_encode($a), true)), '|', json_encode(json_decode(json_encode($a)));\n",
+     'a:2:{s:1:"5";i:1;s:1:"k";i:2;}|same|{"5":1,"k":2}|{"5":1,"k":2}|{"5":1,"k":2}'),
+    ("append",
+     "<?php\n$c = [];\n$c[] = 'x';\n$c[] = 1.5;\n$c[] = null;\n$c[] = true;\n$s = serialize($c);\necho $s, '|', "
+     "(serialize(unserialize($s)) === $s ? 'same' : 'diff'), '|', json_encode($c), '|', json_encode(json_decode(json_encode($c), true));\n",
+     'a:4:{i:0;s:1:"x";i:1;d:1.5;i:2;N;i:3;b:1;}|same|["x",1.5,null,true]|["x",1.5,null,true]'),
+    ("sparse-int-key",
+     "<?php\n$d = [1, 2];\n$d[10] = 3;\n$s = serialize($d);\necho $s, '|', serialize(unserialize($s)), '|', json_encode($d), '|', "
+     "json_encode(json_decode(json_encode($d), true));\n",
+     'a:3:{i:0;i:1;i:1;i:2;i:10;i:3;}|a:3:{s:1:"0";i:1;s:1:"1";i:2;s:2:"10";i:3;}|{"0":1,"1":2,"10":3}|{"0":1,"1":2,"10":3}'),
+    ("decode-into-class",
+     "<?php\nclass C14Q { public $a = 0; public $b = ''; public $c = []; }\n$o = json_decode('{\"a\":7,\"b\":\"x\",\"c\":[1,2]}', 'C14Q');\n"
+     "echo gettype($o), '|', json_encode($o), '|', serialize($o);\n",
+     'class|{"a":7,"b":"x","c":[1,2]}|O:4:"C14Q":3:{s:1:"a";i:7;s:1:"b";s:1:"x";s:1:"c";a:2:{i:0;i:1;i:1;i:2;}}'),
+    ("nested-keyed",
+     "<?php\n$n = ['a' => ['b' => [1, 2], 'c' => 1.0], 'd' => \"q\\\"x\"];\n$s = serialize($n);\necho $s, '|', "
+     "(serialize(unserialize($s)) === $s ? 'same' : 'diff'), '|', json_encode($n), '|', json_encode(json_decode(json_encode($n), true)), '|', "
+     "json_encode(json_decode(json_encode($n)));\n",
+     'a:2:{s:1:"a";a:2:{s:1:"b";a:2:{i:0;i:1;i:1;i:2;}s:1:"c";d:1;}s:1:"d";s:3:"q"x";}|same|{"a":{"b":[1,2],"c":1.0},"d":"q\\"x"}|'
+     '{"a":{"b":[1,2],"c":1.0},"d":"q\\"x"}|{"a":{"b":[1,2],"c":1.0},"d":"q\\"x"}'),
+    ("depth-argument",
+     "<?php\necho json_encode(json_decode('[[1]]', true, 1)), '|', json_encode(json_decode('[[1]]', true, 2)), '|', "
+     "json_encode(json_decode('{\"a\":{\"b\":1}}', false, 1));\n",
+     'null|[[1]]|null'),
+    ("edges",
+     "<?php\necho var_export(unserialize(' N;'), true), '|', var_export(json_encode(\"\\xff\"), true), '|', json_encode(9007199254740993), '|', "
+     "json_encode(json_decode('9007199254740993', true)), '|', json_encode(unserialize('d:0.5;'));\n",
+     'false|false|9007199254740993|9007199254740993|0.5'),
+]
+
+
 def php_view(v):
     """the PHP value an engine value tree stands for: arrays as ordered (key, value) lists"""
     t = v["t"]
@@ -287,13 +324,20 @@ def run(ck, binary, run_impl, replay):
         float_bits(c["v"], fb)
     fb = sorted(fb)
     segs = sorted(set(m for c in ucases for m in re.findall(rb"d:([^;]*);", bytes.fromhex(c["hex"]))))
-    aux = [{"k": "ftext", "v": fb}, {"k": "fcanon", "v": [x.hex() for x in segs]}, {"k": "ser.object"}]
+    scripts = [{"k": "script", "extra": {"src": src}} for _, src, _ in SCRIPTS] if replay is None or replay["case"].get("k") == "script" else []
+    aux = scripts + [{"k": "ftext", "v": fb}, {"k": "fcanon", "v": [x.hex() for x in segs]}, {"k": "ser.object"}]
     outs = run_impl(ck, binary, [strip(c) for c in scases + ucases] + exh + aux)
     if len(outs) != len(scases) + len(ucases) + len(exh) + len(aux):
         ck.broken.append("harness-run:ser")
         return {"evaluations": len(outs), "nontrivial": 0, "traces": 0, "rule": "ser: harness crashed"}
     o_ft, o_fc, o_obj = outs[-3], outs[-2], outs[-1]
-    outs = outs[:-3]
+    o_scripts = outs[len(outs) - 3 - len(scripts):len(outs) - 3]
+    outs = outs[:len(outs) - 3 - len(scripts)]
+    for (name, src, want), o in zip(SCRIPTS, o_scripts):
+        if o.get("outcome") != "ok" or o.get("out") != want:
+            ck.violation("script:" + name, {"part": NAME, "case": {"k": "script", "extra": {"src": src}}, "impl_out": o, "expected": want,
+                                            "clause": "script-level serialize / json round trip differs from the expected output"})
+    ck.cov["ser_script_level_cases"] = len(scripts)
     FTEXT.clear()
     for b, t in zip(fb, o_ft.get("texts", [])):
         FTEXT[b] = bytes.fromhex(t)
